@@ -65,11 +65,57 @@ fn judge(rep: &mut Rep, data: &[u8], cuts: [usize; 4], salt: &[u8; 16], key: &[u
     }
 }
 
+/// Very large inputs (the data is regenerated from `dseed` on replay instead of being written into the replay line).
+fn judge_big(rep: &mut Rep, len: usize, dseed: u64, class: &str) {
+    let mut rng = Rng::new(dseed, 0xb16);
+    let data = rng.bytes(len);
+    let salt: [u8; 16] = rng.arr();
+    let key: [u8; 32] = rng.arr();
+    // cut points: random, one of them on a 64-byte block boundary, one file possibly empty
+    let mut cuts = [rng.below(len as u64 + 1) as usize, (rng.below(len as u64 + 1) as usize) & !63, rng.below(len as u64 + 1) as usize, rng.below(len as u64 + 1) as usize];
+    cuts.sort();
+    if dseed & 1 == 1 {
+        cuts[2] = cuts[1];
+    }
+    let replay = format!("big {} {} {}", len, dseed, class);
+    let f = [&data[..cuts[0]], &data[cuts[0]..cuts[1]], &data[cuts[1]..cuts[2]], &data[cuts[2]..cuts[3]], &data[cuts[3]..]];
+    let want = model(&[&data], &salt, &key);
+    rep.ev(3);
+    let w = guard(|| login_integrity_check_windows(f[0], f[1], f[2], f[3], f[4], &salt, &key));
+    let m = guard(|| login_integrity_check_mac(f[0], f[1], f[2], f[3], f[4], &salt, &key));
+    let g = guard(|| login_integrity_check_generic(&data, &salt, &key));
+    for (name, r) in [("windows", w), ("mac", m), ("generic", g)] {
+        match r {
+            Err(e) => rep.violation(&format!("c17:panic:{}", name), format!("{} panicked on {} bytes: {}", name, len, e), replay.clone()),
+            Ok(h) => {
+                if h != want {
+                    rep.violation(
+                        &format!("c17:{}_differs:{}", name, class),
+                        format!("{} check over {} bytes (files of lengths {:?}) gives {}, SHA1(key|HMAC(salt, files)) gives {}", name, len, f.iter().map(|x| x.len()).collect::<Vec<_>>(), hex(&h), hex(&want)),
+                        replay.clone(),
+                    );
+                }
+            }
+        }
+    }
+    rep.count("inputs_above_2MiB", 1);
+    rep.count("bytes_in_inputs_above_2MiB", len as u64);
+    rep.hist("large_input_log2", (usize::BITS - 1 - len.leading_zeros()) as usize, 1);
+    rep.cell(&[3000, len as u64]);
+}
+
+/// lengths around powers of two from 2 MiB up (16 MiB, 32 MiB and 64 MiB are customary block sizes of chunked hashing)
+pub const BIG_QUICK: [usize; 16] = [
+    (1 << 21) + 1, (1 << 22) - 1, (1 << 23) + 17, 1 << 24, (1 << 24) + 1, (1 << 24) + 4321, (1 << 25) + 3, (1 << 25) - 5,
+    (1 << 26) + 9, 3 * (1 << 24) + 2, (1 << 24) + (1 << 12), 10 * (1 << 20) + 7, (1 << 26) - 1, (1 << 27) + 5, 3 * (1 << 23) + 1, (1 << 24) - 1,
+];
+pub const BIG_THOROUGH: [usize; 6] = [(1 << 28) + 1, (1 << 29) + 3, (1 << 30) + 5, (1 << 31) + 7, (1usize << 32) + 9, (1 << 31) - 1];
+
 pub fn run(tier: &str, seed: u64) -> Rep {
     let mut total = Rep::new();
     total.rule = "Windows, Mac and single-buffer integrity functions against SHA1(key | hand-built HMAC-SHA1(salt, concatenated files)): for \
 byte strings of length 0..L all C(L+4,4) distributions over the five file arguments (including empty files), lengths around SHA-1 block \
-boundaries and up to 1 MiB with random cut points, every single-bit change of salt, key and short files changes the result; reconnect \
+boundaries, up to 1 MiB and around powers of two from 2 MiB to 128 MiB (thorough: to 4 GiB + 9) with random cut points, every single-bit change of salt, key and short files changes the result; reconnect \
 check against SHA1(salt | 20 zero bytes). distinct = distinct (length, distribution) pairs + bit positions flipped"
         .to_string();
     let max_l: usize = match tier {
@@ -253,6 +299,12 @@ check against SHA1(salt | 20 zero bytes). distinct = distinct (length, distribut
             rep.count("one_mebibyte_inputs", 1);
             rep.cell(&[len as u64, cuts[0] as u64]);
         }
+        if n_sizes >= 10 {
+            judge_big(&mut rep, BIG_QUICK[(sh + seed as usize) % 16], rng.next(), "above_2MiB");
+            if big > 4 && sh < BIG_THOROUGH.len() {
+                judge_big(&mut rep, BIG_THOROUGH[sh], rng.next(), "above_256MiB");
+            }
+        }
         // reconnect variant
         for _ in 0..(if n_sizes < 10 { 5 } else { 200 }) {
             let salt: [u8; 16] = rng.arr();
@@ -281,6 +333,8 @@ pub fn replay(args: &[String]) -> Rep {
         let salt: [u8; 16] = unhex(&args[6]).try_into().unwrap_or([0; 16]);
         let key: [u8; 32] = unhex(&args[7]).try_into().unwrap_or([0; 32]);
         judge(&mut rep, &data, [c[0], c[1], c[2], c[3]], &salt, &key, "replay");
+    } else if args.len() >= 4 && args[0] == "big" {
+        judge_big(&mut rep, args[1].parse().unwrap_or(0), args[2].parse().unwrap_or(0), "replay");
     } else if args.len() >= 2 && args[0] == "reconnect" {
         let salt: [u8; 16] = unhex(&args[1]).try_into().unwrap_or([0; 16]);
         rep.ev(1);
